@@ -21,8 +21,30 @@ func MarshalSchema(schema *ast.Schema) []byte {
 }
 
 type marshaler struct {
-	w      *bytes.Buffer
-	indent int
+	w        *bytes.Buffer
+	indent   int
+	declared map[string]bool // base names of all declared entity, enum and common types
+}
+
+// builtin writes the name of a built-in type, qualified with __cedar:: if a user
+// declaration of the same name could capture the unqualified spelling.
+func (m *marshaler) builtin(name string) {
+	if m.declared[name] {
+		m.w.WriteString("__cedar::")
+	}
+	m.w.WriteString(name)
+}
+
+func (m *marshaler) collectDeclared(entities ast.Entities, enums ast.Enums, commonTypes ast.CommonTypes) {
+	for name := range entities {
+		m.declared[string(name)] = true
+	}
+	for name := range enums {
+		m.declared[string(name)] = true
+	}
+	for name := range commonTypes {
+		m.declared[string(name)] = true
+	}
 }
 
 func (m *marshaler) writeIndent() {
@@ -33,6 +55,12 @@ func (m *marshaler) writeIndent() {
 
 func (m *marshaler) marshalSchema(schema *ast.Schema) {
 	first := true
+
+	m.declared = map[string]bool{}
+	m.collectDeclared(schema.Entities, schema.Enums, schema.CommonTypes)
+	for _, ns := range schema.Namespaces {
+		m.collectDeclared(ns.Entities, ns.Enums, ns.CommonTypes)
+	}
 
 	// Marshal bare declarations
 	m.marshalDecls(&first, schema.Entities, schema.Enums, schema.Actions, schema.CommonTypes)
@@ -158,13 +186,13 @@ func (m *marshaler) marshalAnnotations(annotations ast.Annotations) {
 func (m *marshaler) marshalType(t ast.IsType) {
 	switch t := t.(type) {
 	case ast.StringType:
-		m.w.WriteString("String")
+		m.builtin("String")
 	case ast.LongType:
-		m.w.WriteString("Long")
+		m.builtin("Long")
 	case ast.BoolType:
-		m.w.WriteString("Bool")
+		m.builtin("Bool")
 	case ast.ExtensionType:
-		m.w.WriteString(string(t))
+		m.builtin(string(t))
 	case ast.SetType:
 		m.w.WriteString("Set<")
 		m.marshalType(t.Element)
